@@ -16,6 +16,7 @@ ViewOK(e) == e.vmem = e.mem /\ e.vstr = e.str      \* the stream reconstructs th
 
 TInit == /\ t \in 1 .. NT /\ l = 2
          /\ LET e == Traces[t][1] IN
+              /\ e.hwmax = HwMax
               /\ hw = e.hw /\ mem = e.mem /\ str = e.str
               /\ hw \in Fn /\ mem = hw /\ str = hw /\ ViewOK(e)
 
